@@ -17,6 +17,7 @@ import (
 	"github.com/muktihari/fit/kit/semicircles"
 	"github.com/muktihari/fit/profile/factory"
 	"github.com/muktihari/fit/profile/mesgdef"
+	"github.com/muktihari/fit/profile/typedef"
 	"github.com/muktihari/fit/profile/untyped/mesgnum"
 	"github.com/muktihari/fit/proto"
 )
@@ -315,7 +316,7 @@ func (c *FITToCSVConv) writeMesgDef(mesgDef proto.MessageDefinition) {
 	c.buf.WriteByte(',')
 
 	mesgName := mesgDef.MesgNum.String()
-	if strings.HasPrefix(mesgName, "MesgNumInvalid") {
+	if strings.HasPrefix(mesgName, "MesgNumInvalid") || mesgDef.MesgNum >= typedef.MesgNumMfgRangeMin { // manufacturer specific numbers have no name the reader knows
 		mesgName = factory.NameUnknown
 		if c.options.verbose {
 			mesgName = formatUnknown(int(mesgDef.MesgNum))
@@ -389,7 +390,7 @@ func (c *FITToCSVConv) writeMesg(mesg proto.Message) {
 	c.buf.WriteString(strconv.Itoa(int(proto.LocalMesgNum(mesg.Header))))
 	c.buf.WriteByte(',')
 	mesgName := mesg.Num.String()
-	if strings.HasPrefix(mesgName, "MesgNumInvalid") {
+	if strings.HasPrefix(mesgName, "MesgNumInvalid") || mesg.Num >= typedef.MesgNumMfgRangeMin { // manufacturer specific numbers have no name the reader knows
 		mesgName = factory.NameUnknown
 		if c.options.verbose {
 			mesgName = formatUnknown(int(mesg.Num))
